@@ -8,6 +8,6 @@ CONSTANTS
   MaxWrites = 1
   SyncStates = {"created", "running", "stopped"}
   StrictPolicy = TRUE
-  WithEvents = FALSE
+  WithEvents = TRUE
   ConsistentEnv = TRUE
-INVARIANTS TypeOK Inv_RuntimeEqualsCache Inv_NothingPending Inv_NoUpdateToDead Inv_AdjDescribesCreated
+INVARIANTS TypeOK Inv_RuntimeEqualsCache Inv_NothingPending Inv_AdjDescribesCreated
